@@ -61,7 +61,7 @@ def modInt (a b : Int) : Int :=
 def p10 (k : Nat) : Nat := 10 ^ k
 
 /-- number of decimal digits of a coefficient (`len(self._int)`), 1 for 0 -/
-def numDigits (n : Nat) : Nat := (Nat.toDigits 10 n).length
+def numDigits (n : Nat) : Nat := FOArith.numDigits10 n
 
 /-- rounded magnitude ⌊N/D⌉ for the three rounding modes used by the code; `D > 0` -/
 inductive Mode | halfUp | halfDown | halfEven
@@ -118,18 +118,13 @@ def decMod (a : Int) (sa : Nat) (b : Int) (sb : Nat) : Option (Int × Nat) :=
     let r : Nat := (a.natAbs * p10 (s - sa)) % (b.natAbs * p10 (s - sb))
     some (ctx28 (if a < 0 then -(r : Int) else r) s)
 
-/-- ⌊log10 a⌋ for a positive rational -/
-def ilog10 (a : Rat) : Int :=
-  let e : Int := (numDigits a.num.natAbs : Int) - (numDigits a.den : Int)
-  if (10 : Rat) ^ e ≤ a then (if (10 : Rat) ^ (e + 1) ≤ a then e + 1 else e) else e - 1
-
 /-- `Decimal.__truediv__`: the exact quotient rounded to 28 significant digits (half even);
 `b ≠ 0` -/
 def decDiv (a : Int) (sa : Nat) (b : Int) (sb : Nat) : Int × Nat :=
   let q : Rat := ((a * p10 sb : Int) : Rat) / ((b * p10 sa : Int) : Rat)
   if q = 0 then (0, 0) else
   let m := if q < 0 then -q else q
-  let k : Int := 27 - ilog10 m          -- digits kept after the decimal point
+  let k : Int := 27 - FOArith.ilog10 m  -- digits kept after the decimal point
   let scaled : Rat := m * (10 : Rat) ^ k
   let c := roundMag .halfEven scaled.num.natAbs scaled.den
   let sgn : Int := if q < 0 then -1 else 1
@@ -152,6 +147,10 @@ def mkFloat : Dbl → Dbl
     else if -floatTiny < q ∧ q < floatTiny then .zero (decide (q < 0))
     else .fin q
   | d => d
+
+/-- the arithmetic the implementation really performs on xs:float: binary64 rounding followed by the
+range clamp of `Float.__new__` in place of rounding to binary32 -/
+def implR (R : Rounding) : Rounding := { r64 := R.r64, r32 := fun q => mkFloat (R.r64 q) }
 
 def fadd (R : Rounding) (x y : Dbl) : Dbl := FOArith.ieeeAdd R.r64 x y
 def fsub (R : Rounding) (x y : Dbl) : Dbl := FOArith.ieeeAdd R.r64 x y.neg
@@ -501,6 +500,92 @@ def modelUn (R : Rounding) (v : Ver) (op : UnOp) (a : Num) : Num :=
   | .round p => if v = .v10 ∨ v = .v20 then fnRound1 R a else fnRound R a p
   | .rhe p => fnRhe R a p
 
+/-! ### XPath 1.0 parser (compatibility mode): string operands go through `number_value` →
+`helpers.get_double` (collapse white space, `INF`/`-INF`/`NaN`, the xs:double lexical pattern
+`[+-]?(digits(.digits*)?|.digits)([Ee][+-]?digits)?`, then Python `float(str)`); integer and decimal
+literals are NOT converted by the binary operators (finding F06v) but are by floor/ceiling/round -/
+
+/-- characters matched by the implementation's white-space class `[^\S\xa0]` -/
+def isPySpace (c : Char) : Bool :=
+  [9, 10, 11, 12, 13, 28, 29, 30, 31, 32, 133, 5760, 8192, 8193, 8194, 8195, 8196, 8197, 8198, 8199, 8200,
+   8201, 8202, 8232, 8233, 8239, 8287, 12288].contains c.toNat
+
+/-- `([Ee][+-]?[0-9]+)?$` on the rest after the mantissa: the exponent -/
+def scanExp (cs : List Char) : Option Int :=
+  match cs with
+  | [] => some 0
+  | c :: t =>
+    if c == 'e' || c == 'E' then
+      let (neg, ds) := match t with
+        | '-' :: u => (true, u)
+        | '+' :: u => (false, u)
+        | u => (false, u)
+      if ds.isEmpty || !(ds.all Char.isDigit) then none
+      else some (if neg then -(FOArith.digitsVal ds : Int) else (FOArith.digitsVal ds : Int))
+    else none
+
+/-- `XPathToken.number_value(str)` -/
+def pyNumber (R : Rounding) (cs : List Char) : Dbl :=
+  let s := FOArith.stripWith isPySpace cs
+  if s = ['I', 'N', 'F'] then .inf false
+  else if s = ['-', 'I', 'N', 'F'] then .inf true
+  else if s = ['N', 'a', 'N'] then .nan
+  else
+    let (neg, body) := match s with
+      | '-' :: t => (true, t)
+      | '+' :: t => (false, t)
+      | t => (false, t)
+    match FOArith.scanMantissa body with
+    | some (i, f, rest) =>
+      match scanExp rest with
+      | some e => FOArith.signedToDbl R.r64 neg (FOArith.decimalToRat i f e)
+      | none => .nan
+    | none => .nan
+
+/-- an operand of the 1.0 parser -/
+inductive Opnd | num (n : Num) | str (cs : List Char)
+
+/-- `validated_value` in compatibility mode: a string becomes a float -/
+def conv10 (R : Rounding) : Opnd → Num
+  | .num n => n
+  | .str cs => .dbl (pyNumber R cs)
+
+/-- `number_value(arg)` on a number: `float(arg)` -/
+def toDbl10 (R : Rounding) : Num → Num
+  | .int n => .dbl (ofInt R n)
+  | .dec n s => .dbl (ofDec R n s)
+  | .dbl d => .dbl d
+  | .flt d => .dbl d
+
+def model10Bin (R : Rounding) (op : BinOp) (a b : Opnd) : Except Err Num :=
+  modelBin R .v10 op (conv10 R a) (conv10 R b)
+
+/-- floor / ceiling / round convert their argument with `number_value` first; unary minus does not -/
+def model10Un (R : Rounding) (op : UnOp) (a : Opnd) : Num :=
+  match op with
+  | .neg => modelUn R .v10 .neg (conv10 R a)
+  | .pos => modelUn R .v10 .pos (conv10 R a)
+  | op => modelUn R .v10 op (toDbl10 R (conv10 R a))
+
+def absOpnd : Opnd → FOArith.Opnd10
+  | .num (.int n) => .int n
+  | .num (.dec n s) => .dec ((n : Rat) / (p10 s : Nat))
+  | .num (.dbl d) => .dbl d
+  | .num (.flt d) => .dbl d
+  | .str cs => .str cs
+
+def isExactOpnd : Opnd → Bool
+  | .num (.int _) => true
+  | .num (.dec _ _) => true
+  | _ => false
+
+/-- F06s: the implementation's string→number conversion accepts the xs:double lexical space
+(exponents, a leading '+', INF, Unicode white space), XPath 1.0 number() only `-? Number` -/
+def trigF06s (R : Rounding) (a : Opnd) : Bool :=
+  match a with
+  | .str cs => !(pyNumber R cs == FOArith.number10 R cs)
+  | _ => false
+
 /-! ### trigger predicates of the known findings and of the excluded regions
 (decidable, computed from the input only; hypotheses of the `_partial` theorems) -/
 
@@ -579,6 +664,15 @@ def trigIdef_bin (op : BinOp) (a b : Num) : Bool :=
         numDigits ((x.natAbs * p10 (max sx sy - sx)) % (y.natAbs * p10 (max sx sy - sy))) > 28))
   | _, _ => false
 
+/-- the only exact-operand region left without an exact specification: `idiv` / `mod` whose quotient has
+more than 28 digits (Python raises InvalidOperation → FOAR0002 / FOAR0001) -/
+def trigQuot28 (op : BinOp) (a b : Num) : Bool :=
+  match asDec a, asDec b, a, b with
+  | _, _, .int _, .int _ => false
+  | some (x, sx), some (y, sy), _, _ =>
+    (op == .idiv || op == .mod) && y != 0 && numDigits (decQuotMag x sx y sy) > 28
+  | _, _, _, _ => false
+
 def trigIdef_un (op : UnOp) (a : Num) : Bool :=
   match op, a with
   | .neg, .dec n _ => numDigits n.natAbs > 28
@@ -603,5 +697,17 @@ def trigBig (R : Rounding) (op : BinOp) (a b : Num) : Bool :=
    match fx, fy with
    | .fin x, .fin y => decide ((2 : Rat) ^ (51 : Nat) ≤ (if x / y < 0 then -(x / y) else x / y))
    | _, _ => false)
+
+/-- F06v: the XPath 1.0 parser computes integer and decimal literals exactly (int / Decimal) instead of
+as IEEE doubles: the value differs from XPath 1.0 arithmetic (e.g. `1 div 3`, `0.1 + 0.2`, `5 mod 0`) -/
+def trigF06v_bin (R : Rounding) (op : BinOp) (a b : Opnd) : Bool :=
+  isExactOpnd a && isExactOpnd b &&
+  !(match model10Bin R op a b, FOArith.spec10Bin R op (absOpnd a) (absOpnd b) with
+    | .ok m, .ok s => (absNum m).num10 == s.num10
+    | .error e1, .error e2 => e1 == e2
+    | _, _ => false)
+
+def trigF06v_un (R : Rounding) (op : UnOp) (a : Opnd) : Bool :=
+  isExactOpnd a && !((absNum (model10Un R op a)).num10 == (FOArith.spec10Un R op (absOpnd a)).num10)
 
 end EPV.Arith
